@@ -24,6 +24,15 @@ def run(ctx):
                                                        dict(allow_refusals=False, fat_dir=0.3, long_rr=0.08),
                                                        nops=(5, 40) if quick else (10, 120), recipe_cfgs=5 if quick else 40),
                         oracle, max_shrink=6)
+    # the same object mastered more than once with edits in between that move directories (path table growth, duplicate PVD)
+    hist = list(sysprops.histories(ctx, 30 if quick else 500, ['ptable_boundary', 'ptable_boundary_dup_late', 'exact_fill_plus'],
+                                   dict(allow_refusals=False, fat_dir=0.3), nops=(8, 35), recipe_cfgs=3 if quick else 20))
+    for label, cfg, ops, sizes in hist:
+        if len(ops) < 4:
+            continue
+        ks = sorted(set(ctx.rng.randrange(1, len(ops)) for _ in range(ctx.rng.choice([1, 2, 3]))))
+        sysprops.run_oracle(ctx, 'C03', iter([(label + '+write-in-between', cfg, ops, sizes)]), oracle, max_shrink=1,
+                            build_kwargs={'schedule': {k: ['write'] for k in ks}})
     packleaf.flush_image_cases(ctx)
     ctx.cov['rule'] = ('images of random edit histories over a pairwise-covering configuration set plus boundary recipes '
                        '(directory block filled exactly / one record short / one over, path table crossing 4096 bytes with a '
